@@ -17,7 +17,7 @@ EXPL = ("Decides the *borders* named in the property from the exact branch condi
 
 
 def run(ctx):
-    cfgs = ["rel"] if ctx.tier == "quick" else ["rel", "dbg", "unsafe", "nodef"]
+    cfgs = ["rel", "unsafe"] if ctx.tier == "quick" else ["rel", "dbg", "unsafe", "nodef"]
     ctx.progs(cfgs)  # build all configurations in parallel
     for c in cfgs:
         prog = ctx.prog(c)
@@ -35,6 +35,10 @@ def run(ctx):
         ctx.guard("C13", "reset-side", lambda: gen.reset_side_conditions(ctx, prog))
         ctx.guard("C13", "casts", lambda: casts.census(ctx, prog, scope='internals::generate::', floor=3))
         if not c.startswith("unsafe"):
-            # (the pointer engine of `unsafe` is tied to the index engine by SA-ENGINEMAP under C14)
             ctx.guard("C13", "piece", lambda: piece.piece_effects(ctx, prog))
+        else:
+            # the pointer engine of `unsafe` is tied to the index engine (SA-ENGINEMAP) and its caches to their fields (SA-MIRROR)
+            base = ctx.prog("rel")
+            ctx.guard("C13", "mirror", lambda: engine.mirror(ctx, prog))
+            ctx.guard("C13", "enginemap", lambda: engine.engine_correspondence(ctx, base, prog))
     return ctx.finish(EXPL, ["rustc's compile-time evaluation of MAX_INPUT_SIZE / MIN_RECOMMENDED_INPUT_SIZE", "u64_ilog2 computes floor(log2) (checked arithmetically by the repository's own tests, not here)"])
